@@ -76,7 +76,7 @@ impl Check for C04 {
     }
     fn plan(&self, tier: Tier) -> Plan {
         let mut p = Plan::new(tier.pick(16_000, 2_000_000), tier.pick(25.0, 360.0));
-        p.mandatory = 1;
+        p.mandatory = 2;
         p
     }
     fn selftest(&self) -> Result<(), String> {
@@ -129,6 +129,29 @@ impl Check for C04 {
             out.count("fixed_boundary_cases", fixed.len() as u64);
             return;
         }
+        if k == 1 {
+            // encodings longer than the largest RTMP message (2^24-1 bytes): the codec itself has no
+            // such limit, and a value boundary exactly at 2^24-1 / 2^24 must not end the decoding
+            let full = "y".repeat(65535);
+            let mut big: Vec<Vec<V>> = Vec::new();
+            big.push((0..257).map(|_| V::Str(full.clone())).collect());
+            for target in [(1usize << 24) - 1, 1 << 24, (1 << 24) + 1] {
+                let mut vs: Vec<V> = (0..255).map(|_| V::Str(full.clone())).collect();
+                let used = 255 * 65538;
+                vs.push(V::Str("z".repeat(target - used - 3)));
+                vs.push(V::Null);
+                vs.push(V::Num(1f64.to_bits()));
+                vs.push(V::Str("tail".into()));
+                big.push(vs);
+            }
+            big.push(vec![V::Arr((0..2_000_000).map(|i| V::Num((i as f64).to_bits())).collect()), V::Bool(true)]);
+            big.push(vec![V::Obj((0..300).map(|i| (format!("p{}", i), V::Str(full.clone()))).collect()), V::Undef]);
+            for vs in big.iter() {
+                check_one(vs, out);
+            }
+            out.count("encodings_longer_than_16_MiB", big.len() as u64);
+            return;
+        }
         for i in 0..BATCH {
             let cfg = GenCfg {
                 max_depth: rng.usize(1, 6),
@@ -147,7 +170,7 @@ impl Check for C04 {
         }
     }
     fn rule(&self) -> String {
-        "sequences of 0-6 AMF0 values, nesting depth <= 6: numbers from raw 64-bit patterns (NaNs with payloads, signed zero, infinities, subnormals, integers), booleans, strings and property names with lengths in {0,1,..,300,65533..65538,70000} built from 1-4 byte UTF-8 sequences and NULs, objects of 0-8 properties, arrays of 0-300 elements; plus 18 fixed boundary cases and arrays/objects/mixed containers nested {1,8,64,126..131,255..257,500,1000} deep. A case is non-trivial when it nests, carries a special number or a long string; distinct = distinct structural hash (type multiset, depth, length classes).".to_string()
+        "sequences of 0-6 AMF0 values, nesting depth <= 6: numbers from raw 64-bit patterns (NaNs with payloads, signed zero, infinities, subnormals, integers), booleans, strings and property names with lengths in {0,1,..,300,65533..65538,70000} built from 1-4 byte UTF-8 sequences and NULs, objects of 0-8 properties, arrays of 0-300 elements; objects shaped like Flash associative arrays (keys 0..n-1 plus length n, n+1 or n-1) and property names code may treat specially (length, 0, __proto__, name, type, code ...); six sequences whose encoding is longer than 16 MiB (257 strings of 65,535 bytes; a value boundary exactly at 2^24-1, 2^24 and 2^24+1 with values behind it; an array of 2 M numbers; an object of 300 long strings); plus 18 fixed boundary cases and arrays/objects/mixed containers nested {1,8,64,126..131,255..257,500,1000} deep. A case is non-trivial when it nests, carries a special number or a long string; distinct = distinct structural hash (type multiset, depth, length classes).".to_string()
     }
     fn assumptions(&self) -> Vec<String> {
         vec![
@@ -156,6 +179,6 @@ impl Check for C04 {
         ]
     }
     fn required_counters(&self, _tier: Tier) -> Vec<String> {
-        vec!["round_trips_exact".into(), "encode_refused".into(), "fixed_boundary_cases".into(), "deep_nesting_cases".into()]
+        vec!["round_trips_exact".into(), "encode_refused".into(), "fixed_boundary_cases".into(), "deep_nesting_cases".into(), "encodings_longer_than_16_MiB".into()]
     }
 }
